@@ -344,6 +344,48 @@ def run(prog, tier) -> Result:
                 cr.run("R11.5" if sc == "Currency" else "R11.2", up,
                        f"update validity {vk}, spec currency {sc}, {'first' if prior is None else 'later'} update",
                        setup_up(vk, sc, prior), judge_up(vk, sc))
+    # R11.9: a later update of the same (period, currency) replaces the earlier rate
+    from ..engine_a import run_body
+    from ..report import Violation
+
+    def twice_body(I, c):
+        conv, base = mk_converter(c, prog, None)
+        conv.fields["_rate_dict"] = DictV(tag="_rate_dict")
+        cur = c.unit("ct", "M")
+        v = Num(RF.atom(("k", "year")), "int")
+        I.call_function(up, [conv, v, ListV([TupleV([cur, c.num("ta1", "dec"), c.num("um1", "int")])])], {})
+        I.call_function(up, [conv, v, ListV([TupleV([cur, c.num("ta2", "dec"), c.num("um2", "int")])])], {})
+        tbl = conv.fields["_rate_dict"]
+        c.st.cur = cur
+        return I.models.dict_get(tbl, TupleV([v, cur]), None)
+    outs = run_body(prog, twice_body, max_depth=12)
+    res.paths += len(outs)
+    fails = []
+    n_ok = 0
+    for o in outs:
+        if o.kind == "raise":
+            if o.exc.name in ("ValueError", "TypeError"):
+                continue
+            fails.append(Violation("R11.9", "MoneyConverter.update", "same key updated twice", exc_sig(o), "", list(o.trace)))
+            continue
+        n_ok += 1
+        v = o.value
+        want = RF.atom(("k", "ta2")) / RF.atom(("k", "um2"))
+        if not isinstance(v, RateV) or not exact_rate(o.state, v).equals(want):
+            fails.append(Violation("R11.9", "MoneyConverter.update", "same key updated twice",
+                                   "an earlier entry survives a later update of the same key",
+                                   f"lookup after two updates gives {v!r}; contract: the rate of the second update",
+                                   list(o.trace)))
+    if n_ok == 0:
+        fails.append(Violation("R11.9", "MoneyConverter.update", "same key updated twice", "no accepting path", ""))
+    res.obligations += 1
+    res.evaluations += max(1, len(outs))
+    res.rules["R11.9"] = res.rules.get("R11.9", 0) + 1
+    res.nontrivial_keys.add(("R11.9", "MoneyConverter.update", "same key updated twice"))
+    if not fails:
+        res.discharged += 1
+    res.violations.extend(fails)
+
     # lazily consumed generator handed to a mutating call interleaves its raises with the writes
     for n in ast.walk(up.node):
         if isinstance(n, ast.Call) and isinstance(n.func, ast.Attribute) and n.func.attr in ("update", "extend"):
@@ -366,7 +408,7 @@ def run(prog, tier) -> Result:
     writes = inventory(prog, ["quantity.money"])
     cg = CallGraph(prog)
     n = len(check_ownership(res, "R11.8", writes, "_rate_dict",
-                            {"MoneyConverter.__init__": {"="}, "MoneyConverter.update": {"update", "[]="}}, cg))
+                            {"MoneyConverter.__init__": {"="}, "MoneyConverter.update": {"update", "[]=", "="}}, cg))
     n += len(check_ownership(res, "R11.8", writes, "_type_of_validity",
                              {"MoneyConverter.__init__": {"="}, "MoneyConverter.update": {"="}}, cg))
     if n < 4:
